@@ -187,4 +187,90 @@ def generate(repo):
             "     w_reap_raw := " + shuffle_src(find_call(find_function(tree, "Crop.reap_combos"), "combo_runner_core")) + ";",
             "     w_reap_ds := " + shuffle_src(find_call(find_function(tree, "Crop.reap_combos_to_ds"), "combo_runner_to_ds")) + " |}.",
             ""]
+    # ---- description wiring: the term for combos / cases at the batch planner, the saved settings, the runner
+    prepare = find_function(tree, "Crop.prepare")
+    pc = find_call(prepare, "self.save_info")
+    if {k.arg: ast.unparse(k.value) for k in pc.keywords} != {"combos": "combos", "cases": "cases", "fn_args": "fn_args"} \
+            or any(isinstance(n, ast.Assign) and ast.unparse(n.targets[0]) in ("combos", "cases") for n in ast.walk(prepare)):
+        raise Refused(prepare, "prepare does not hand combos / cases / fn_args to save_info unchanged")
+    for name, fn, runner in (("gen_sow_combos_sites", sow_combos, "combo_runner_core"),
+                             ("gen_sow_cases_sites", sow_cases, "case_runner")):
+        sites = descr_sites(fn, runner, save_info)
+        out += [f"Definition {name} : descr_sites :=",
+                "  mk_descr_sites " + " ".join(sites[k] for k in ("batch_combos", "batch_cases", "saved_combos",
+                                                                 "saved_cases", "run_combos", "run_cases")) + ".", ""]
     return "\n".join(out)
+
+
+def dterm_step(env, stmt):
+    """Update the symbolic value of `combos` / `cases` for one statement (None if it does not touch them)."""
+    if not (isinstance(stmt, ast.Assign) and len(stmt.targets) == 1 and isinstance(stmt.targets[0], ast.Name)
+            and stmt.targets[0].id in ("combos", "cases")):
+        for n in ast.walk(stmt):
+            if isinstance(n, (ast.Assign, ast.AugAssign, ast.NamedExpr)):
+                tg = n.targets if isinstance(n, ast.Assign) else [n.target]
+                if any(isinstance(t, ast.Name) and t.id in ("combos", "cases") for t in tg):
+                    raise Refused(stmt, "combos / cases rebound inside a compound statement")
+        return False
+    var, v = stmt.targets[0].id, stmt.value
+    t = ast.unparse(v)
+    if t in (f"parse_{var}({var})", f"parse_{var}({var}, fn_args)"):
+        env[var] = f"(DParse {env[var]})"
+    elif var == "combos" and t == "sorted(combos, key=lambda x: x[0])":
+        env[var] = f"(DSortByName {env[var]})"
+    else:
+        raise Refused(stmt, f"unrecognised rewrite of {var}")
+    return True
+
+
+def descr_sites(fn, runner, save_info):
+    env = {"combos": "DArg", "cases": "DArg"}
+    sites = {}
+
+    def arg_terms(call, e):
+        kw = {k.arg: k.value for k in call.keywords}
+        res = {}
+        for var in ("combos", "cases"):
+            if var not in kw:
+                res[var] = "DAbsent"
+            elif isinstance(kw[var], ast.Name) and kw[var].id == var:
+                res[var] = e[var]
+            else:
+                raise Refused(call, f"{var} argument is not the local variable")
+        return res, kw
+    for s in fn.body:
+        if dterm_step(env, s):
+            continue
+        calls = [n for n in ast.walk(s) if isinstance(n, ast.Call)]
+        for cl in calls:
+            f = ast.unparse(cl.func)
+            if f == "self.choose_batch_settings":
+                r, _ = arg_terms(cl, env)
+                sites["batch_combos"], sites["batch_cases"] = r["combos"], r["cases"]
+            elif f == "self.prepare":
+                r, _ = arg_terms(cl, env)
+                # through save_info: its own rewrites of combos / cases, then the saved dict
+                e2 = dict(r)
+                for st in save_info.body:
+                    dterm_step(e2, st)
+                saved = {}
+                for n in ast.walk(save_info):
+                    if isinstance(n, ast.Dict):
+                        for k, v in zip(n.keys, n.values):
+                            if isinstance(k, ast.Constant) and k.value in ("combos", "cases"):
+                                if not (isinstance(v, ast.Name) and v.id == k.value):
+                                    raise Refused(v, "saved description entry")
+                                saved[k.value] = e2[k.value]
+                if set(saved) != {"combos", "cases"}:
+                    raise Refused(save_info, "saved settings lack combos / cases")
+                sites["saved_combos"], sites["saved_cases"] = saved["combos"], saved["cases"]
+            elif f == runner:
+                r, kw = arg_terms(cl, env)
+                if runner == "case_runner" and ("parse" not in kw or ast.unparse(kw["parse"]) != "False"):
+                    r = {k: f"(DParse {v})" for k, v in r.items()}
+                sites["run_combos"], sites["run_cases"] = r["combos"], r["cases"]
+    missing = [k for k in ("batch_combos", "batch_cases", "saved_combos", "saved_cases", "run_combos", "run_cases")
+               if k not in sites]
+    if missing:
+        raise Refused(fn, f"sites not found: {missing}")
+    return sites
